@@ -211,6 +211,21 @@ def resolve_missing(unit, gen, res, log):
       files.append(p.file)
   for d in res["diags"]:
     msg = d.get("message") or ""
+    if "is not supported" in msg and "assume_specification" in msg:
+      # a std function vstd has no specification for (typically introduced by an edit of /repo): Verus prints the declaration it
+      # needs; it is added WITHOUT any ensures clause (arbitrary result: sound, a caller that needs more fails its obligation)
+      txt = " ".join((d.get("rendered") or "").split())
+      for ch in d.get("children", []):
+        txt += " " + " ".join(((ch.get("message") or "") + " " + (ch.get("rendered") or "")).split())
+      ms = re.search(r"(pub assume_specification\s*(?:<[^\[]*>)?\s*\[[^\]]*\]\s*\(.*?\)(?:\s*->\s*[^;]*?)?(?:\s*where[^;]*)?;)", txt)
+      if ms:
+        decl = ms.group(1)
+        key = "assume_specification " + re.search(r"\[([^\]]*)\]", decl).group(1).strip()
+        if key not in seen:
+          seen.add(key)
+          extra.append(vx.Raw(text="// auto-resolved: contract-less specification of a std function (result arbitrary)\n" + decl + "\n", label="auto-std-spec"))
+          log.append({"name": key, "how": "std function without vstd specification: contract-less assume_specification added (arbitrary result)"})
+      continue
     m = re.search(r"cannot find (value|function) `([A-Za-z_][A-Za-z0-9_]*)` in this scope", msg)
     m2 = re.search(r"no (?:function or associated item|method|associated item|associated function or constant) named `([A-Za-z_][A-Za-z0-9_]*)` found for (?:struct|enum|reference|type) `&?(?:mut )?([A-Za-z_][A-Za-z0-9_:]*)", msg)
     if not m and not m2:
